@@ -11,8 +11,15 @@ if not ok:
     sys.exit(1)
 import glob
 props = sorted("BB.Props." + os.path.basename(f)[:-5] for f in glob.glob(os.path.join(core.LEAN, "BB", "Props", "*.lean")))
-ok, msg = core.build_lean(tuple(["BB", "bbdriver"] + props))
+# BB.Props.C18 depends on BB/Generated/*.lean, which the C18 check regenerates from /repo's tm/num.py
+# on every run (translator): build it last and do not let a stale or failing generated file take
+# the whole setup down - the C18 check reports that itself.
+strict = [p for p in props if p != "BB.Props.C18"]
+ok, msg = core.build_lean(tuple(["BB", "bbdriver"] + strict))
 if not ok:
     print(msg)
     sys.exit(1)
+ok, msg = core.build_lean(("BB.Props.C18", "BB.Generated.NumTables"))
+if not ok:
+    print("note: BB.Props.C18 / BB.Generated.NumTables did not build at setup time; the C18 check regenerates and rebuilds them:\n" + msg[-1500:])
 print("setup ok")
